@@ -42,7 +42,7 @@ PROPS = {
                 "rescaled / sign-flipped / both; shared commitment pointers; labels '', short, 900..2048 bytes; processes "
                 "pinned to 1..16 CPUs by taskset (runtime.NumCPU follows) and GOMAXPROCS set below / above the CPU count. Non-trivial = at least two distinct "
                 "evaluation indices; distinct by the full case." + NOISE_NOTE
-                + " Round-4 additions: openings with equal claimed values may pass ONE shared *fr.Element (share_y), polynomial kinds whose non-zero evaluations in one half sum to zero ('cancel') or that are piecewise constant ('steps').",
+                + " Round-4 additions: openings with equal claimed values may pass ONE shared *fr.Element (share_y), polynomial kinds whose non-zero evaluations in one half sum to zero ('cancel') or that are piecewise constant ('steps'). Forced degenerate statements: the zero / a constant polynomial opened 1, 2, 17, 300 times at one index under the empty label, through shared and separate objects.",
         "oracle": "round trip: CheckMultiProof(fresh transcript, same label, freshly rebuilt copies of the original commitments in the "
                   "generated representation / sharing pattern) == (true, nil); equal next challenge of both transcripts",
         "assumptions": COMMON_ASSUMPTIONS + ["NumCPU > 16 cannot be produced in this sandbox"],
@@ -114,7 +114,7 @@ PROPS = {
                 "{0..8,16,17,64,127..129,200,255,256,uniform} x {sparse, dense, dense with recipe scalars}; scalar recipes "
                 "{0,1,small,r-1..r-4,2^k,2^k-1,limb patterns,8/16-bit window recipes with carry chains,uniform}; non-trivial = "
                 "length != 256 or a recipe coefficient; distinct by the full case." + NOISE_NOTE
-                + ' Round-4 addition: every scalar s = 2*d*2^(w*top) - r in (0, r) at positions 0..6, 100, 255 (3710 values per 16-bit position): after recoding the running sum equals the table entry added last, so the final addition is a doubling.',
+                + ' Round-4 addition: every scalar s = 2*d*2^(w*top) - r in (0, r) at positions 0..6, 100, 255 (3710 values per 16-bit position): after recoding the running sum equals the table entry added last, so the final addition is a doubling. Vector mode 'allsame': every coefficient equal.',
         "oracle": "reference sum v_i*G_i over the reference CRS (incremental walk re-derived every 1009th value by a direct "
                   "math/big scalar multiplication), compared as group element and as compressed bytes; metamorphic laws "
                   "Commit(a+b)=Commit(a)+Commit(b), Commit(k*a)=k*Commit(a), coefficient update = +delta*G_i, agreement with "
@@ -211,7 +211,7 @@ PROPS = {
                 "deterministically plus rapid cases, c=20 and c=21 once each (c=22 and more in thorough), scalars through "
                 "partitionScalars. Non-trivial = n >= 2 with a split, the first-chunk split path, a window width other than "
                 "6, or a digit/limb recipe; distinct by the case." + NOISE_NOTE
-                + " Round-4 additions: point lists whose Z coordinates multiply to exactly 1 without being 1 ('tieZ'), the receiver being one of the input elements, all (20|21, split|no split) huge-window combinations in quick and 22 in thorough; thorough also fuzzes explicit scalars through the digit partitioning (FuzzC09Digits).",
+                + " Round-4 additions: point lists whose Z coordinates multiply to exactly 1 without being 1 ('tieZ'), the receiver being one of the input elements, all (20|21, split|no split) huge-window combinations in quick and 22 in thorough; thorough also fuzzes explicit scalars through the digit partitioning (FuzzC09Digits). Neighbouring terms that hold the same point (or opposite points) with equal or opposite scalars, so that terms cancel or double inside a bucket; every term with the same scalar.",
         "oracle": "sum s_i*P_i = (sum s_i*a_i mod r)*G from the known discrete logs, one reference scalar multiplication, compared "
                   "by reference equality on raw coordinates; length mismatch must return an error; "
                   "termination: a watchdog 3 orders of magnitude above the normal cost; a call that does not return while every "
@@ -305,7 +305,7 @@ PROPS = {
                 "/ uniform operands, all aliasing patterns). Run in two build configurations (default with ADX detection, "
                 "-tags noadx), each also calling the portable generic functions through the hook. Non-trivial = (configuration, "
                 "boundary operand pair / element) (counted, distinct by construction)." + CONC_NOTE
-                + ' Round-4 additions: BatchInvert lengths 1023..1025, 2049, 4097; thorough also fuzzes (operation, aliasing, raw operands) with coverage guidance (FuzzC15Ops).',
+                + ' Round-4 additions: BatchInvert lengths 1023..1025, 2049, 4097; thorough also fuzzes (operation, aliasing, raw operands) with coverage guidance (FuzzC15Ops). In a third of the drawn binary cases the second operand is derived from the first in raw limbs (same, negative, +-d*2^(64k), double, x+y = r+d).',
         "oracle": "math/big on the raw limbs: value = limbs*2^-256 mod r, operation on integers mod r, expected limbs = value*2^256 "
                   "mod r; results must be bit-identical to that fully reduced representation; Sqrt nil iff Jacobi = -1 and "
                   "root^2 = x; inverse of 0 is 0; operands unchanged",
@@ -345,7 +345,7 @@ PROPS = {
                 "failing at the j-th Write call. Deterministic sweeps: every field x every replacement class, every write-fault "
                 "position, an injected read error at every offset 0..577, trailing bytes through every reader kind. "
                 "Non-trivial = rejected for exactly one reason, or accepted through a non-trivial reader, or a write-fault case." + NOISE_NOTE + CONC_NOTE
-                + ' Round-4 additions: the same invalid class in TWO fields at once (pairs inside L, inside R, across, and with D; an even number of wrong-subgroup points), final scalars whose limbs are one below / equal to / one above the limbs of r (all 81 combinations deterministically, 5^3*3 drawn).',
+                + ' Round-4 additions: the same invalid class in TWO fields at once (pairs inside L, inside R, across, and with D; an even number of wrong-subgroup points), final scalars whose limbs are one below / equal to / one above the limbs of r (all 81 combinations deterministically, 5^3*3 drawn). A third part writes proof OBJECTS whose points are in arbitrary (rescaled, sign-flipped, identity) representations, with L and R optionally being the two halves of one backing array: Write must emit the canonical encodings and Read(Write(p)) must equal p.',
         "oracle": "reference parser: exactly 576 (544 consumed) bytes, every point a valid canonical subgroup encoding (reference "
                   "decoder), scalar < r, the stream delivers all bytes then EOF; Read succeeds iff the reference accepts; on "
                   "success decoded fields equal the reference decode, Write reproduces the bytes, Read(Write(p)).Equal(p); a "
